@@ -123,11 +123,46 @@ macro_rules! parts {
 }
 
 static SYS: LockStep = LockStep { property: "C05", probes: true, seed: None };
+static SYS_MED: LockStep = LockStep { property: "C05", probes: false, seed: None };
+
+/// the same commands on a screen that is not tiny, with mid-range parameters
+fn alpha_medium(cfg: &Cfg) -> Vec<Op> {
+    let mut v = alpha(cfg);
+    for n in [3u32, 4, 7, 255, 256, 257] {
+        for cmd in [Cuu(Some(n)), Cud(Some(n)), Cuf(Some(n)), Cub(Some(n)), Cnl(Some(n)), Cpl(Some(n)), Vpr(Some(n)), Cha(Some(n)), Vpa(Some(n)), Cht(Some(n)), Cbt(Some(n))] {
+            v.push(c(cmd));
+        }
+    }
+    for (r, cc) in [(3u32, 4u32), (4, 6), (5, 7), (256, 256), (3, 256)] {
+        v.push(c(Cup(Some(r), Some(cc))));
+    }
+    for (a, b) in [(2u32, 4u32), (3, 4), (3, 5), (4, 5), (2, 256)] {
+        v.push(c(Decstbm(Some(a), Some(b))));
+    }
+    v
+}
+
+fn medium_part(tier: Tier) -> Part<'static, LockStep> {
+    Part {
+        name: "moves-lockstep-medium-screen",
+        sys: &SYS_MED,
+        cfgs: match tier {
+            Tier::Quick => cfgs(&[(7, 5)], &[None]),
+            Tier::Thorough => cfgs(&[(7, 5), (6, 6), (17, 5)], &[None]),
+        },
+        alphabet: &alpha_medium,
+        depth: tier.pick(3, 4),
+        seconds: tier.pick(20.0, 1800.0),
+        validated: true,
+        nontrivial: Some("lockstep_transitions"),
+    }
+}
 
 pub fn run(ctx: &Ctx) -> Report {
     let mut rep = Report::new();
     let p = parts!(ctx.tier, &SYS);
     run_part(ctx, &mut rep, &p);
+    run_part(ctx, &mut rep, &medium_part(ctx.tier));
     rep.rule = "lock-step BFS of (real Vt, reference terminal) over every movement command x parameter class x spelling, DECOM, valid and invalid DECSTBM pairs, text to reach wrap-pending, resizes; after every transition all cells of lines(), the cursor and the specified wrap marks are compared; a probe layer at every new state exposes margins, origin mode, tab stops and saved contexts".into();
     rep.assumptions = vec!["readings R1-R7 of DESIGN.md §3.2 (wrap-pending column compared as min(col, cols-1) after vertical moves)".into()];
     rep
@@ -135,6 +170,9 @@ pub fn run(ctx: &Ctx) -> Report {
 
 pub fn replay(ctx: &Ctx, v: &Value) -> bool {
     let tier = if v["tier"] == "thorough" { Tier::Thorough } else { Tier::Quick };
+    if v["part"] == "moves-lockstep-medium-screen" {
+        return replay_part(ctx, &medium_part(tier), v);
+    }
     let p = parts!(tier, &SYS);
     replay_part(ctx, &p, v)
 }
